@@ -270,6 +270,40 @@ def generate(unit, repo, vacuity_fn=None):
         fn = parse_fn(src.toks, item)
         toks = src.toks
         edits = []
+        # $L<n> / $F<n> in contract text: the n-th `let`-bound local / `for`-loop variable of the CURRENT body, so that
+        # a harmless rename of a local does not lose the proof hints that mention it
+        lets, fors = [], []
+        k = fn.body_open + 1
+        while k < fn.body_close - 1:
+            if toks[k].kind == 'ident' and toks[k].text == 'let' and toks[k - 1].text not in ('if', 'while'):
+                j = k + 1
+                if toks[j].text == 'mut':
+                    j += 1
+                if toks[j].kind == 'ident' and toks[j + 1].text in ('=', ':', ';'):
+                    lets.append(toks[j].text)
+            elif toks[k].kind == 'ident' and toks[k].text == 'for' and toks[k + 1].kind == 'ident' and toks[k + 2].text == 'in':
+                fors.append(toks[k + 1].text)
+            k += 1
+
+        def subst(text):
+            def rep(m):
+                lst = lets if m.group(1) == 'L' else fors
+                n = int(m.group(2))
+                if n >= len(lst):
+                    raise RsxError('anchor lost: %s has no %s local #%d' % (qual, 'let' if m.group(1) == 'L' else 'for', n))
+                return lst[n]
+            return re.sub(r'\$([LF])(\d+)', rep, text)
+
+        import copy
+        fs = copy.copy(fs)
+        fs.requires = [Clause(c.label, subst(c.text)) for c in fs.requires]
+        fs.ensures = [Clause(c.label, subst(c.text)) for c in fs.ensures]
+        fs.body_start = subst(fs.body_start)
+        fs.loops = {n: {'iter': lp['iter'], 'invariant': [Clause(c.label, subst(c.text)) for c in lp['invariant']],
+                        'decreases': [Clause(c.label, subst(c.text)) for c in lp['decreases']]} for n, lp in fs.loops.items()}
+        for attr in ('before_loop', 'loop_body_start', 'loop_body_end', 'after_loop', 'after_semi'):
+            setattr(fs, attr, {n: subst(t) for n, t in getattr(fs, attr).items()})
+        fs.closure_ensures = {n: subst(t) for n, t in fs.closure_ensures.items()}
         _drop_attrs_and_vis(src, item, edits, None, stats)
         pre = '%s/%s' % (unit['name'], qual)
         if fs.external:
